@@ -259,7 +259,7 @@ Definition ToStringMeta (v : value) : VM value :=
 (* ---------- coroutinelib.go ---------- *)
 Definition new_thread (fn : fnref) (wrapped : bool) : VM nat :=
   fun s => VRet (length (vthreads s))
-                (with_threads s (vthreads s ++ [mkTh (mkReg [] 0) [mkFrame fn 0 0 1 0 0 MultRet 0] [] None wrapped false false])).
+                (with_threads s (vthreads s ++ [mkTh (mkReg [] 0) [mkFrame fn 0 0 1 0 0 MultRet 0] [] None wrapped false false 0])).
 
 (* func (th *LState) adjustResumedValues(n int), running as th *)
 Definition adjustResumedValues (n : Z) : VM unit :=
@@ -293,6 +293,9 @@ Definition thread_status (s : vstate) (t : nat) : bytes :=
 (* func threadRun(L) for the coroutine t resumed by the thread me: the main loop runs until the
    coroutine yields or ends; an error kills the coroutine and is handed to the resumer (as a
    result of resume, or as an error of the wrap function, positioned for strings) *)
+(* func threadRun(L) for the coroutine t resumed by the thread me: the main loop runs until the
+   coroutine yields or ends; an error kills the coroutine and is handed to the resumer (as a result
+   of resume, or as an error of the wrap function, positioned for strings) *)
 Definition threadRun (t me : nat) (wrapped : bool) : VM unit :=
   fun s1 =>
                     match mainloop None s1 with
@@ -303,7 +306,7 @@ Definition threadRun (t me : nat) (wrapped : bool) : VM unit :=
                         if wrapped then
                           (* the error leaves through the wrap function *)
                           let s4 := set_thread s3 t (let x := get_thread s3 t in
-                                       mkTh (th_reg x) (th_stack x) (th_uvcache x) None (th_wrapped x) true true) in
+                                       mkTh (th_reg x) (th_stack x) (th_uvcache x) None (th_wrapped x) true true (th_nccalls x)) in
                           let sp := switch_to me s4 in
                           match e with
                           | VNum _ | VStr _ =>
@@ -329,8 +332,12 @@ Definition threadRun (t me : nat) (wrapped : bool) : VM unit :=
                     | VUnsup c => VUnsup c
                     end.
 
-(* func coResume(L): the registers of L hold the thread and the values to pass *)
-Definition coResume : VM Z :=
+(* func resumeThread(L, wrapped): the registers of L hold the thread and the values to pass.
+   [wrapped] is a property of the resumption: a function made by coroutine.wrap gets the plain
+   values and errors are raised in it, coroutine.resume gets a leading boolean - also for a thread
+   that coroutine.wrap created. (enterThread's failure - the thread's registry cannot take the
+   arguments - does not arise: the registry is unbounded here.) *)
+Definition resumeThread (wrapped : bool) : VM Z :=
   vdo args <- bi_args;
   match args with
   | VCo t :: vals =>
@@ -338,14 +345,24 @@ Definition coResume : VM Z :=
       let th := get_thread s t in
       let me := vcur s in
       if Nat.eqb t me || (match th_parent th with Some _ => true | None => false end)
-      then (if th_wrapped th then fault_ 9 else bi_ret [VBool false; VFault 9 0])
+      then (if wrapped then fault_ 9 else bi_ret [VBool false; VFault 9 0])
       else if th_dead th
-      then (if th_wrapped th then fault_ 8 else bi_ret [VBool false; VFault 8 0])
-      else
+      then (if wrapped then fault_ 8 else bi_ret [VBool false; VFault 8 0])
+      else match th_stack th with
+      | [] =>
+          (* the body was a Go function that yielded: it has no frame to continue, the values it
+             is resumed with are its results *)
+          vdo _ <- upd_thread t (fun x => mkTh (th_reg x) (th_stack x) (th_uvcache x) (th_parent x) (th_wrapped x) true
+                                               (th_started x) (th_nccalls x));
+          vdo cf <- cur_frame;
+          vdo _ <- reg_settop (fr_localbase cf);
+          bi_ret (if wrapped then vals else VBool true :: vals)     (* L.Remove(1) / L.Replace(1, LTrue) *)
+      | _ :: _ =>
         vdo cf <- cur_frame;
         let nargs := len vals in
         vdo _ <- reg_settop (fr_localbase cf + 1);          (* L.XMoveTo(th, nargs), L's side *)
-        vdo _ <- upd_thread t (fun x => mkTh (th_reg x) (th_stack x) (th_uvcache x) (Some me) (th_wrapped x) (th_dead x) true);
+        (* th.wrapped = wrapped; enterThread: th.Parent = L, CurrentThread = th *)
+        vdo _ <- upd_thread t (fun x => mkTh (th_reg x) (th_stack x) (th_uvcache x) (Some me) wrapped (th_dead x) true (th_nccalls x));
         vdo _ <- vmod (switch_to t);
         (* running as th *)
         vdo _ <- (if negb (th_started th) then
@@ -359,12 +376,13 @@ Definition coResume : VM Z :=
                     set_cur_frame cf2
                   else
                     vdo _ <- reg_push_list vals; adjustResumedValues nargs);
-        vdo _ <- threadRun t me (th_wrapped th);
+        vdo _ <- threadRun t me wrapped;
         vdo s5 <- vget;
         if negb (Nat.eqb (vcur s5) me) then vunsup 115 else
         vdo cf5 <- cur_frame;
         vdo top <- reg_top;
         vret (top - fr_localbase cf5 - 1)
+      end
   | _ => badarg
   end.
 
@@ -473,11 +491,11 @@ Definition gfunction (b : builtin) : VM Z :=
   | BCoWrap => match fnref_of a1 with Some f => vdo t <- new_thread f true; bi_ret [VBuiltin (BWrapped (S t))] | None => badarg end
   | BCoStatus => match a1 with VCo t => vdo s <- vget; bi_ret [VStr (thread_status s t)] | _ => badarg end
   | BCoRunning => vdo s <- vget; bi_ret [if Nat.eqb (vcur s) 0 then VNil else VCo (vcur s)]
-  | BCoResume => coResume
+  | BCoResume => resumeThread false
   | BWrapped (S t) =>        (* wrapaux: L.Insert(thread, 1); return coResume(L) *)
       vdo cf <- cur_frame;
       vdo _ <- vmod_reg (fun r => Insert r (VCo t) (fr_localbase cf));
-      coResume
+      resumeThread true
   | _ => vdo rs <- simple_builtin b args; bi_ret rs
   end.
 
